@@ -57,6 +57,7 @@ def HttpOutcome.obs : HttpOutcome → Obs
   | .cancelled => .noinfo
 
 def BlobEvent.raw (e : BlobEvent σ) (s : σ) : Obs :=
+  if !e.bucket s then .noinfo else         -- a poll says nothing about the sources of other buckets
   match blobRuleSets e.fetch with
   | none => .noinfo
   | some rss =>
@@ -87,6 +88,15 @@ def BlobFetch.distinct : BlobFetch σ → Prop
 
 instance (f : BlobFetch σ) : Decidable f.distinct := by
   cases f <;> unfold BlobFetch.distinct <;> infer_instance
+
+/-- the blobs a poll finds belong to the polled bucket -/
+def BlobFetch.within (b : σ → Bool) : BlobFetch σ → Prop
+  | .listing items => ∀ p ∈ items, b p.1 = true
+  | .single id _ => b id = true
+  | _ => True
+
+instance (b : σ → Bool) (f : BlobFetch σ) : Decidable (f.within b) := by
+  cases f <;> unfold BlobFetch.within <;> infer_instance
 
 /-- a digest keeping provider: what it does with one input, what the input shows of each source, for which sources the
 processor refuses calls during this step, which inputs can occur, and what it maintains about its state -/
@@ -137,7 +147,7 @@ def cloudBlob : Provider σ (BlobEvent σ) where
   step := blobStep
   shows := BlobEvent.raw
   rej := (·.rej)
-  admissible := fun e => e.fetch.distinct           -- a listing names every blob once
+  admissible := fun e => e.fetch.distinct ∧ e.fetch.within e.bucket   -- every blob listed once, and of this bucket
   good := fun _ => True
 
 end Heimdall.Prov
